@@ -23,7 +23,11 @@ type scriptedWriter struct {
 	calls    int
 	failedAt int // 1-based call number of the injected failure, 0 if none
 	err      error
-	after    int // calls after the failure
+	after    int  // calls after the failure
+	partial  bool // the failing call took one byte before reporting the error
+	// partialOK: this writer may also fail after taking part of the data (explored
+	// for the writer without WriteString, whose calls go through Format's adapter)
+	partialOK bool
 }
 
 type writeFault struct{ call int }
@@ -38,9 +42,25 @@ func (w *scriptedWriter) write(p []byte) (int, error) {
 		return 0, w.err
 	}
 	w.calls++
-	if w.x.Choose(2) == 1 {
+	styles := 2
+	if w.partialOK {
+		styles = 3
+	}
+	switch w.x.Choose(styles) {
+	case 1:
 		w.failedAt = w.calls
 		w.err = &writeFault{w.calls}
+		return 0, w.err
+	case 2:
+		// The failure is reported after part of the data has been taken
+		// (io.Writer: "Write must return a non-nil error if it returns n < len(p)").
+		w.failedAt = w.calls
+		w.err = &writeFault{w.calls}
+		if len(p) >= 2 {
+			w.buf = append(w.buf, p[0])
+			w.partial = true
+			return 1, w.err
+		}
 		return 0, w.err
 	}
 	w.buf = append(w.buf, p...)
@@ -78,7 +98,7 @@ func init() {
 		Level: "fault_enumeration",
 		Rule:  "first clause: every token sequence up to the stated length over each declared alphabet is parsed and formatted into a scripted writer (with and without a WriteString method) that may fail at any one write call (every fault point: one execution per call index, plus the fault-free execution, which also checks nil error, determinism, equality of both writer kinds and an unchanged tree); second clause: every canonical-style document of the supported construct set S_fmt (DESIGN.md) is formatted, re-parsed, compared on rendered HTML and re-formatted; non-trivial = first clause: an execution with an injected failure after at least one successful write; second clause: the formatted text differs from the canonical serialization",
 		Assumptions: []string{
-			"a writer fails by returning (0, err) and keeps returning that error; short writes without error are outside the io.Writer contract and not generated",
+			"a writer fails by returning (0, err), or (1, err) for a call with at least two bytes (a failure reported after part of the data was taken), and keeps returning that error; short writes without error are outside the io.Writer contract and not generated",
 			"at most one failure per execution is meaningful because Format must not write again after the first error",
 		},
 		Run: func(c *Ctx) {
@@ -98,7 +118,7 @@ func c20Faults(x *X, in []byte) {
 	blocks, refs := cm.Parse(clone(in))
 	before := tree.Dump(blocks, refs, tree.Full)
 	kind := x.ChooseFree(2)
-	sw := &scriptedWriter{x: x}
+	sw := &scriptedWriter{x: x, partialOK: kind == 0}
 	var w io.Writer = plainScripted{sw}
 	cfg := "writer=plain"
 	if kind == 1 {
@@ -113,6 +133,9 @@ func c20Faults(x *X, in []byte) {
 	x.Validated()
 	if sw.failedAt != 0 {
 		cfg += fmt.Sprintf(",fail-at-call=%d", sw.failedAt)
+		if sw.partial {
+			cfg += ",after-taking-1-byte"
+		}
 		if !errors.Is(err, sw.err) {
 			x.Fail("error-not-returned", cfg, in, "writer failed at call %d with %v but Format returned %v", sw.failedAt, sw.err, err)
 			return
